@@ -387,10 +387,17 @@ fn fe_record(case: &FeCase, scratch: &str, lsp: &Session, lsp_root: &str) -> Val
 // histories
 
 fn hist_text(i: usize) -> String {
+  // text 0 is the text without any finding: the diagnostics published for it are the empty list
+  if i == 0 {
+    return "keep();\n".to_string();
+  }
   format!("foo(t{i});\nkeep();\n")
 }
 fn text_of_diags(diags: &[Value]) -> i64 {
   // the finding's message names the text: "foo called with t<i>"
+  if diags.is_empty() {
+    return 0;
+  }
   if diags.len() != 1 {
     return -(diags.len() as i64) - 1;
   }
@@ -518,7 +525,10 @@ fn random_history(rng: &mut Rng, len: usize) -> Vec<Value> {
       _ => 1,
     };
     open = kind != "close";
-    sent.push(json!({"kind": kind, "ver": ver, "text": i + 1}));
+    // one text in four is the clean one (a document that is re-opened or changed to a text without findings must have its
+    // old diagnostics replaced by the empty list)
+    let text = if kind != "close" && rng.chance(1, 4) { 0 } else { i + 1 };
+    sent.push(json!({"kind": kind, "ver": ver, "text": text}));
   }
   sent
 }
